@@ -10,7 +10,7 @@ THEOREMS = ['Core.c01_calls_once', 'Core.c01_flat', 'Core.c01_slot', 'Core.c01_s
             # the hand-written model is the source as translated on this run (harness/anchors_core.py, pyloop2lean.py)
             'CoreRefine.coreEnum_refines', 'CoreRefine.coreRunSeq_refines', 'CoreRefine.coreRunExec_refines',
             'CoreRefine.coreRun_plain', 'CoreRefine.coreRun_shuffled', 'CoreRefine.coreRun_shuffled_empty',
-            'CoreRefine.coreRun_runLinear', 'CoreRefine.unflatten_refines', 'CoreRefine.coreProcess_flat',
+            'CoreRefine.coreRun_runLinear', 'CoreRefine.unflatten_refines', 'CoreRefine.unflatten_refines_default', 'CoreRefine.coreProcess_flat',
             'CoreRefine.coreProcess_grid', 'CoreRefine.coreGlue_holds', 'CoreRefine.translated_eq_core',
             'CoreRefine.c01_slot_src']
 ANCHORS = ['coreEnum', 'coreRunSeq', 'coreRunExec', 'coreRun', 'unflatten', 'coreProcess', 'coreGlue']
